@@ -45,7 +45,11 @@ impl Sub for Image {
          unigram weight; distinct = hash(output files)".into()
     }
     fn check(&self, spec: &TrainSpec, ctx: &mut Ctx) -> Result<(), String> {
-        let mut model = train(spec, true)?;
+        let mut model = match train(spec, true) {
+            Ok(m) => m,
+            Err(e) if crate::props::trainc::is_timeout(&e, ctx) => return Ok(()),
+            Err(e) => return Err(e),
+        };
         let view = guard(|| hooks::train::model_view(&mut model))
             .map_err(|p| format!("model_view: {p}"))?
             .map_err(|e| format!("model_view: {e}"))?;
@@ -216,7 +220,11 @@ impl Sub for SmallDic {
          non-trivial = a pair with non-zero cost in both representations and a BOS or EOS pair with non-zero cost; distinct = hash(matrix.def, bigram files)".into()
     }
     fn check(&self, spec: &TrainSpec, ctx: &mut Ctx) -> Result<(), String> {
-        let mut model = train(spec, true)?;
+        let mut model = match train(spec, true) {
+            Ok(m) => m,
+            Err(e) if crate::props::trainc::is_timeout(&e, ctx) => return Ok(()),
+            Err(e) => return Err(e),
+        };
         if !ctx.strict && crate::props::trainc::known_empty_bigram_table(&mut model)? {
             ctx.count("excluded_by_known_finding_empty_bigram_table_with_user_lexicon", 1);
             return Ok(());
